@@ -32,7 +32,13 @@ def handle (op : String) (j : Json) : R Json := do
         | .ok known => Json.mkObj [("ok", jList Json.str known)]
         | .error (.cycle v) => Json.mkObj [("err", .str "SsbCompilerError"), ("cycle", .str v)]
         | .error (.valueError n) => Json.mkObj [("err", .str "ValueError"), ("name", .str n)]
-        | .error (.notFound n) => Json.mkObj [("err", .str "SsbCompilerError"), ("name", .str n)]
+        | .error (.notFound n) =>
+          let cands := match sortDefs order inp.defs with
+            | .ok sorted => match firstFailure inp.imported sorted with
+              | some (_, cs) => cs
+              | none => [n]
+            | .error _ => [n]
+          Json.mkObj [("err", .str "SsbCompilerError"), ("name", .str n), ("candidates", jList Json.str cands)]
       pure (Json.mkObj (base ++ [("order", jList Json.str order), ("roots", jList Json.str g.roots),
         ("compile", comp), ("guard", .bool (guard inp)), ("topo", jOpt (jList Json.str) (topoOrder inp))]))
   | "macro.resolve" =>
